@@ -654,7 +654,7 @@ func layout(path string) {
 					if v == 2 {
 						pred = rec.FmtL
 					}
-					want := templang.HeaderV("p", 0) + templang.FormatPrint(pred, v)
+					want := templang.FormattedHeaderV("p", v) + templang.FormatPrint(pred, v)
 					s := src(rec.Prog, v)
 					got, err := realFormat(s)
 					r.n++
